@@ -371,7 +371,7 @@ func writeInputRes(root string, seed uint64, tier, corpus string) {
 		}
 		f.Close()
 	}
-	// ---- seeded cover: EVERY name class x mark x type x (with / without a directive) in each of the four
+	// ---- seeded cover: name class x mark x type x (with / without a directive) in each of the four
 	// (flavour x layout) projects; the boolean options spread over the family, resolver layout and model placement seeded
 	var all []inShape
 	for _, c := range inClasses {
@@ -383,12 +383,26 @@ func writeInputRes(root string, seed uint64, tier, corpus string) {
 			}
 		}
 	}
+	// quick: every name class x type in each project, the mark and the directive bit given by a Latin pattern so that
+	// every (type, mark, directive) triple occurs in EACH project (50 fields); thorough: all 200 shapes in each project
+	coverFor := func(k int) []inShape {
+		if tier == "thorough" {
+			return all
+		}
+		var sh []inShape
+		for ci, c := range inClasses {
+			for ti, t := range inTypes {
+				sh = append(sh, inShape{c, inMarks[(ci+ti+k)%2], t, (ci/2+ti+k/2)%2 == 1})
+			}
+		}
+		return sh
+	}
 	off := r.Below(2)
 	rot := r.Below(4)
 	for k := 0; k < 4; k++ {
 		funcSyn, follow := k >= 2, k == 1 || k == 2
-		p := &inProject{name: fmt.Sprintf("c17i%03d", k), shapes: all, funcSyn: funcSyn, follow: follow, cfg: spreadOptions(k, off),
-			opts: map[string]bool{"mutation": r.Bool(), "nested": k%2 == off, "files": true, "extend": r.Bool(), "objres": r.Bool()},
+		p := &inProject{name: fmt.Sprintf("c17i%03d", k), shapes: coverFor(k), funcSyn: funcSyn, follow: follow, cfg: spreadOptions(k, off),
+			opts:     map[string]bool{"mutation": r.Bool(), "nested": k%2 == off, "files": true, "extend": r.Bool(), "objres": r.Bool()},
 			modelPkg: r.Bool(), resolver: resolvers[(k+rot)%4], kind: "cover"}
 		if err := p.write(root); err != nil {
 			fail(err)
